@@ -29,6 +29,46 @@ TRUSTED = [
 ]
 
 
+def replay_model(exe, model_in, workdir, jobs):
+    """Runs the extracted model on the recorded runs, split over `jobs` driver processes."""
+    import subprocess
+    sections, cur = [], []
+    with open(model_in) as f:
+        for l in f:
+            if l.startswith("H ") and cur:
+                sections.append(cur)
+                cur = []
+            cur.append(l)
+    if cur:
+        sections.append(cur)
+    jobs = max(1, min(jobs, len(sections)))
+    buckets = [[0, []] for _ in range(jobs)]
+    for sec in sorted(sections, key=len, reverse=True):
+        b = min(buckets, key=lambda x: x[0])
+        b[0] += len(sec) * len(sec)      # the cost of a run grows faster than its length
+        b[1].append(sec)
+    procs = []
+    for i, (_, secs) in enumerate(buckets):
+        path = os.path.join(workdir, "model-%d.txt" % i)
+        with open(path, "w") as f:
+            for sec in secs:
+                f.writelines(sec)
+        # (outputs go to files: a full pipe would park a driver until its turn to be read)
+        procs.append((subprocess.Popen([exe], stdin=open(path), stdout=open(path + ".out", "w"), stderr=open(path + ".err", "w")), path))
+    rc, outs, errs = 0, [], []
+    for pr, path in procs:
+        try:
+            pr.wait(timeout=3000)
+        except subprocess.TimeoutExpired:
+            pr.kill()
+            rc = 124
+        outs.append(open(path + ".out", errors="replace").read())
+        errs.append(open(path + ".err", errors="replace").read())
+        if pr.returncode not in (0, None) and rc == 0:
+            rc = pr.returncode
+    return rc, "".join(outs), "".join(errs)
+
+
 def main(tier, replay=None):
     c = V.Check(PID, tier)
     proofs_ok = c.proofs(gen_only=["Consts.v"])
@@ -103,7 +143,10 @@ def main(tier, replay=None):
                 foreign[f[1]] = m.group(1) if m else "0"
             elif l.startswith("X "):
                 harness_err.append(l)
-    rc, mo, me = V.sh("%s < %s" % (exe, model_in), timeout=3000)
+    # the model replays every run (twin and crashed) block by block; the long histories (1000-3300 blocks,
+    # several runs each) dominate, so the runs are dealt out to parallel driver processes (a run = the lines
+    # from its "H <id>" line on; the driver starts afresh at every H line), longest first
+    rc, mo, me = replay_model(exe, model_in, c.workdir, min(V.NCPU, int(os.environ.get("VERIF_JOBS", "8"))))
     if rc != 0:
         return c.finish(TRUSTED, no_input_break="model driver failed: " + me[-1500:])
 
